@@ -150,7 +150,7 @@ def run_all(run, hcs):
 
 
 def lcfg(maxops, mech, emit):
-    return ("CONSTANTS Docs = {\"u1\", \"u2\", \"u3\"} MaxOps = %d Mech = \"%s\"\nSPECIFICATION Spec\nINVARIANTS TypeOK KnownIsView%s\nCHECK_DEADLOCK FALSE\n"
+    return ("CONSTANTS Docs = {\"u1\", \"u2\", \"u3\"} Root = \"u1\" MaxOps = %d Mech = \"%s\"\nSPECIFICATION Spec\nINVARIANTS TypeOK KnownIsView%s\nCHECK_DEADLOCK FALSE\n"
             % (maxops, mech, " Emit" if emit else ""))
 
 
@@ -174,7 +174,7 @@ def histories(run):
     streams = []
     for i, h in enumerate(out):
         streams.append({"ops": [{"op": o["op"], "uri": o["uri"], "kind": "", "arg": 0} for o in h["ops"]], "workspace": i % 2 == 0,
-                        "seed": 0, "serial": True, "expect": {"disk": h["disk"], "open": h["open"], "ed": h["ed"]}})
+                        "seed": 0, "serial": True, "expect": {"disk": h["disk"], "open": h["open"], "ed": h["ed"], "inc": sorted(h["inc"]), "dinc": sorted(h["dinc"])}})
     return streams
 
 
@@ -192,7 +192,8 @@ def judge_histories(run, streams, table):
         n += fin.get("asked", 0)
         got = fin.get("state") or {}
         want_open = {u: bool(v) for u, v in s["expect"]["open"].items()}
-        if got and (got.get("open") != want_open or got.get("versions") != s["expect"]["ed"]):
+        want_inc = {u: u in s["expect"].get("inc", ["u2", "u3"]) for u in ("u2", "u3")}
+        if got and (got.get("open") != want_open or got.get("versions") != s["expect"]["ed"] or got.get("inc", want_inc) != want_inc):
             vf.die_tooling("the harness reached state %s, Lifecycle.tla says %s" % (got, s["expect"]))
         for st in (fin.get("stale") or [])[:2]:
             u, k = st["what"].split("/")
